@@ -2,5 +2,5 @@ SPECIFICATION Spec
 CONSTANTS LenMin = 2 LenMax = 3 RepeatMax = 3 ChunkUncompMax = 4 ChunkCompMax = 3
  Alphabet = {0, 1} DictSizes = {2, 4} MaxOut = 5
  Presets <- MCPresets
-INVARIANTS TypeOK CountersAgree PropsKnownInChunk ObligationsMet AggregatesSufficient MatchedLiteralInChunk
+INVARIANTS TypeOK CountersAgree PropsKnownInChunk PropsAreTheConfigured ObligationsMet AggregatesSufficient MatchedLiteralInChunk
 CHECK_DEADLOCK FALSE
